@@ -30,7 +30,7 @@ func AllMerges(p *sdl.Program) []map[string]string { return allMerges(ActiveSour
 
 // AllMergesAfterReload: the same with the late sources included.
 func AllMergesAfterReload(p *sdl.Program) []map[string]string {
-	return allMerges(ActiveSourcesAfterReload(p))
+	return allMerges(secondPass(ActiveSourcesAfterReload(p)))
 }
 
 func allMerges(act []*sdl.Source) []map[string]string {
@@ -197,7 +197,20 @@ type confExpect struct {
 	Violate bool   // the bound value violates the validate constraint
 }
 
-func evalConf(cf *sdl.Conf, cfg map[string]string) confExpect {
+// PresetInt / PresetStr are the values of application-preset configuration fields.
+const (
+	PresetInt = 7
+	PresetStr = "vp"
+)
+
+func evalConf(cf *sdl.Conf, cfg map[string]string) confExpect { return evalConfP(cf, cfg, false) }
+
+// evalConfFor evaluates the field for one instance (whose fields the application may have preset).
+func evalConfFor(i *sdl.Instance, cf *sdl.Conf, cfg map[string]string) confExpect {
+	return evalConfP(cf, cfg, i != nil && i.PresetCfg)
+}
+
+func evalConfP(cf *sdl.Conf, cfg map[string]string, preset bool) confExpect {
 	var e confExpect
 	zero := "0"
 	switch cf.GoType {
@@ -226,9 +239,25 @@ func evalConf(cf *sdl.Conf, cfg map[string]string) confExpect {
 		if !ok {
 			e.Missing = true
 			val = zero
+			if preset && cf.GoType == "int" {
+				val = strconv.Itoa(PresetInt)
+			}
+			if preset && cf.GoType == "string" {
+				val = PresetStr
+			}
 		} else {
 			val = v
 		}
+	case "div":
+		a, okA := cfg[cf.Keys[0]]
+		b, okB := cfg[cf.Keys[1]]
+		x, _ := strconv.Atoi(a)
+		y, _ := strconv.Atoi(b)
+		if !okA || !okB || y == 0 {
+			e.Open = true
+			return e
+		}
+		val = strconv.FormatFloat(float64(x)/float64(y), 'g', -1, 64)
 	case "sum", "mul":
 		a, okA := cfg[cf.Keys[0]]
 		b, okB := cfg[cf.Keys[1]]
@@ -329,6 +358,12 @@ func evalConf(cf *sdl.Conf, cfg map[string]string) confExpect {
 		if !ok {
 			e.Missing = true
 			val = zero
+			if preset && cf.GoType == "int" {
+				val = strconv.Itoa(PresetInt)
+			}
+			if preset && cf.GoType == "string" {
+				val = PresetStr
+			}
 		} else {
 			val = v
 		}
@@ -488,7 +523,7 @@ func (w *World) CheckConfigStages(o *Obs) []Violation {
 	for _, i := range p.Instances {
 		t := w.Types[i.Type]
 		for _, cf := range t.Config {
-			e := evalConf(cf, cfg)
+			e := evalConfFor(i, cf, cfg)
 			exps = append(exps, exp{i.ID, cf, e, t.Lazy})
 			if t.Lazy {
 				// created during Run only if something depends on it
@@ -543,12 +578,12 @@ func (w *World) CheckConfigStages(o *Obs) []Violation {
 			cfg2[p.PostSetKey] = strconv.Itoa(p.PostSetVal)
 		}
 		exprMenu := func(m string) bool {
-			return m == "sum" || m == "mul" || m == "nested" || m == "sumDef" || m == "sumDef2" || m == "cmp" || m == "tern" || m == "concat" || m == "affine" || m == "and" || m == "mod" || m == "indirect"
+			return m == "sum" || m == "mul" || m == "nested" || m == "sumDef" || m == "sumDef2" || m == "div" || m == "cmp" || m == "tern" || m == "concat" || m == "affine" || m == "and" || m == "mod" || m == "indirect"
 		}
 		judge := func(inst string, t *sdl.Type, round int, cfgR map[string]string, l LookupObs, got map[string]string) (created, judged bool) {
 			bad, why := false, ""
 			for _, cf := range t.Config {
-				e := evalConf(cf, cfgR)
+				e := evalConfFor(w.Insts[inst], cf, cfgR)
 				if e.Open {
 					return !l.Err, false
 				}
@@ -574,7 +609,7 @@ func (w *World) CheckConfigStages(o *Obs) []Violation {
 				return false, true
 			}
 			for _, cf := range t.Config {
-				e := evalConf(cf, cfgR)
+				e := evalConfFor(w.Insts[inst], cf, cfgR)
 				if g, ok := got[cf.Field]; ok && g != e.Value {
 					oracle := "bound-value-differs"
 					if exprMenu(cf.Menu) {
@@ -619,7 +654,7 @@ func (w *World) CheckConfigStages(o *Obs) []Violation {
 			}
 			if got != x.e.Value {
 				oracle := "bound-value-differs"
-				if x.cf.Menu == "sum" || x.cf.Menu == "mul" || x.cf.Menu == "nested" || x.cf.Menu == "sumDef" || x.cf.Menu == "sumDef2" || x.cf.Menu == "cmp" || x.cf.Menu == "tern" || x.cf.Menu == "concat" || x.cf.Menu == "affine" || x.cf.Menu == "and" || x.cf.Menu == "mod" || x.cf.Menu == "indirect" {
+				if x.cf.Menu == "sum" || x.cf.Menu == "mul" || x.cf.Menu == "nested" || x.cf.Menu == "sumDef" || x.cf.Menu == "sumDef2" || x.cf.Menu == "div" || x.cf.Menu == "cmp" || x.cf.Menu == "tern" || x.cf.Menu == "concat" || x.cf.Menu == "affine" || x.cf.Menu == "and" || x.cf.Menu == "mod" || x.cf.Menu == "indirect" {
 					oracle = "expression-result-differs"
 				}
 				vs = append(vs, v("C18", oracle, x.inst+"."+x.cf.Field, fmt.Sprintf("%s.%s (%s %v default=%q) holds %q, the menu evaluator gives %q over configuration %v", x.inst, x.cf.Field, x.cf.Menu, x.cf.Keys, x.cf.Default, got, x.e.Value, cfg)))
@@ -689,7 +724,7 @@ func (w *World) ConfigDemand() (string, string) {
 	for _, i := range p.Instances {
 		t := w.Types[i.Type]
 		for _, cf := range t.Config {
-			e := evalConf(cf, cfg)
+			e := evalConfFor(i, cf, cfg)
 			bad := e.Missing && !cf.Optional || e.Violate && cf.Menu != "prefixStruct"
 			switch {
 			case t.Lazy:
@@ -718,4 +753,19 @@ func (w *World) ConfigDemand() (string, string) {
 		}
 	}
 	return res, why
+}
+
+// secondPass returns the sources as the second initialisation of the configuration sees
+// them: a loader whose order is settled late answers with that order.
+func secondPass(act []*sdl.Source) []*sdl.Source {
+	out := make([]*sdl.Source, len(act))
+	for i, s := range act {
+		if s.Order2 != nil {
+			c := *s
+			c.Order = *s.Order2
+			s = &c
+		}
+		out[i] = s
+	}
+	return out
 }
